@@ -333,7 +333,10 @@ func implLine1(line string) string {
 	return "bad-op"
 }
 
-var extraOps = map[string]func([]string) string{}
+var extraOps = map[string]func([]string) string{
+	// ops answered by the model alone (classification against a specification the code does not contain)
+	"devs": func([]string) string { return "model-only" },
+}
 
 // cmdWorker: read case lines on stdin, write one result line per case.
 // A case that does not finish in time prints "hang" and ends the process
